@@ -45,10 +45,11 @@ def units(tier, seed):
                            "max_execs": 1500 if tier == "quick" else 20000})
         us.append({"kind": "tree-create", "spec": spec, "decider": "pt", "depth_off": 0, "horizon": 40,
                    "max_execs": 400 if tier == "quick" else 5000})
-    small = [s for s in fam if s["name"].split(":")[0] in ("S1", "S2", "S3", "S5", "S6", "S7", "S8", "S9", "S10", "S11", "S12")]
-    small += [s for s in fam if s["name"].startswith(("F1:", "G1:"))]
+    small = [s for s in fam if s["name"].split(":")[0] in
+             ("S1", "S2", "S3", "S5", "S6", "S7", "S8", "S9", "S10", "S11", "S12", "S13", "S14", "S15", "S16", "S17", "S18", "S19", "S20", "S21")]
+    small += [s for s in fam if s["name"].startswith(("F1:", "G1:")) and s["name"].count(",") == 0]
     if tier != "quick":
-        small = fam
+        small += [s for s in fam if s["name"].startswith(("F2:", "F3:", "G3:"))]
     for spec in small:
         for rep in ("ge", "sge", "dsge", "stack"):
             us.append({"kind": "map", "spec": spec, "rep": rep, "depth_off": 1, "L": 3 if tier == "quick" else 4,
@@ -196,6 +197,7 @@ def run_unit(unit) -> UnitResult:
                 continue
             errs = R.check_value(ctx.view, ev.result, start_t, ctx.g, what=("type",))
             tm = R.term(ev.result)
+            r.count(f"programs[{ev.rep}/{ev.op}]")
             if tm not in seen:
                 seen.add(tm)
                 if nontrivial(tm):
@@ -227,7 +229,12 @@ def _clean(unit):
 
 
 def finalize(cr):
-    cr.require("library_errors") if False else None
+    for rep in ("tree", "ge", "sge", "dsge", "stack"):
+        cr.require(f"programs[{rep}/map]" if rep != "tree" else "programs[tree/create]")
+    for rep in ("tree", "ge", "sge", "dsge", "stack"):
+        cr.require(f"programs[{rep}/mutate]")
+        cr.require(f"programs[{rep}/crossover]")
+    cr.require("fitness_function_arguments_checked")
     cr.assumptions += [
         "grammars range over the generated families of mc/grammars.py (about 100 quick / 600 thorough specs)",
         "wide integer draws (genes, unbounded ints) are answered from a landmark alphabet",
